@@ -105,7 +105,7 @@ def valid_type(dtype):
     if dtype in _dtype_map:
         dtype = _dtype_map[dtype]
 
-    if hasattr(DType, dtype):
+    if dtype in DType.__members__:
         return True
 
     # Check odML tuple dtype.
